@@ -428,11 +428,16 @@ def check_item(item):
   res = new_result()
   res["evaluations"] += 1
   depth = item.get("depth", 2)
-  try:
-    with guard(20):
-      _check_item(item, res, depth)
-  except HarnessTimeout:
-    pass
+  for budget in (60, 600):   # a stalled machine must not raise an alarm
+    res = new_result()
+    res["evaluations"] += 1
+    try:
+      with guard(budget):
+        _check_item(item, res, depth)
+    except HarnessTimeout:
+      pass
+    if not timed_out():
+      break
   if timed_out():
     res["violations"].append(mkviolation(
         "timeout", {"template": item["template"], "context": item["context"]},
